@@ -4819,6 +4819,14 @@ fn eval_assert(
         None => None,
     };
 
+    // If we error, restore everything that we popped above.
+    let mut saved_values = vec![];
+    if let Some((lhs_value, _, rhs_value)) = &subexpr_values {
+        saved_values.push(lhs_value.clone());
+        saved_values.push(rhs_value.clone());
+    }
+    saved_values.push(receiver_value.clone());
+
     if let Some(b) = receiver_value.as_rust_bool() {
         if !b {
             let message = match subexpr_values {
@@ -4849,7 +4857,7 @@ fn eval_assert(
             };
 
             return Err((
-                RestoreValues(vec![receiver_value]),
+                RestoreValues(saved_values),
                 EvalError::AssertionFailed(recv_expr.position.clone(), ErrorMessage(message)),
             ));
         }
@@ -4862,7 +4870,7 @@ fn eval_assert(
             env,
         );
         return Err((
-            RestoreValues(vec![receiver_value]),
+            RestoreValues(saved_values),
             EvalError::Exception(ExceptionInfo {
                 position: recv_expr.position.clone(),
                 message,
